@@ -399,6 +399,104 @@ func xlateInterp(args []string) error {
 		add("tree_read_only_at_run_time", len(offenders) == 0, why)
 	}
 
+	// ---- no package-level state: nothing survives a call in a package-level variable (a buffer pool, a cache, a busy table).
+	// The evaluators of Sem.v are functions of (tree, data context, locals); a call's outcome cannot depend on what an EARLIER
+	// call — a failed one in particular — left behind in the process.  Checked: the package-level `var` declarations of
+	// internal/base, internal/core, engine, context and builder are the two sentinel errors BREAKFLAG / CONTINUEFLAG and the
+	// read-only table TypeMap, and TypeMap is never stored into.
+	{
+		allowed := map[string]bool{"BREAKFLAG": true, "CONTINUEFLAG": true, "TypeMap": true}
+		var offenders []string
+		for _, rel := range []string{"internal/base", "internal/core", "engine", "context", "builder"} {
+			d := filepath.Join(root, rel)
+			entries, err := os.ReadDir(d)
+			if err != nil {
+				return err
+			}
+			for _, e := range entries {
+				if e.IsDir() || !strings.HasSuffix(e.Name(), ".go") || strings.HasSuffix(e.Name(), "_test.go") {
+					continue
+				}
+				f, err := parser.ParseFile(fset, filepath.Join(d, e.Name()), nil, 0)
+				if err != nil {
+					return err
+				}
+				for _, dcl := range f.Decls {
+					gd, ok := dcl.(*ast.GenDecl)
+					if !ok || gd.Tok != token.VAR {
+						continue
+					}
+					for _, sp := range gd.Specs {
+						if vs, ok := sp.(*ast.ValueSpec); ok {
+							for _, n := range vs.Names {
+								if !allowed[n.Name] && n.Name != "_" {
+									offenders = append(offenders, fmt.Sprintf("%s/%s:%s", rel, e.Name(), n.Name))
+								}
+							}
+						}
+					}
+				}
+				ast.Inspect(f, func(n ast.Node) bool {
+					if as, ok := n.(*ast.AssignStmt); ok {
+						for _, l := range as.Lhs {
+							if t := flat(x, l); t == "TypeMap" || strings.HasPrefix(t, "TypeMap[") || strings.HasSuffix(t, ".TypeMap") || strings.Contains(t, ".TypeMap[") {
+								offenders = append(offenders, fmt.Sprintf("%s/%s:%d stores into TypeMap", rel, e.Name(), fset.Position(as.Pos()).Line))
+							}
+						}
+					}
+					return true
+				})
+			}
+		}
+		why := "the only package-level variables of internal/base, internal/core, engine, context and builder are BREAKFLAG, CONTINUEFLAG and the read-only TypeMap: nothing survives a call in package-level state"
+		if len(offenders) > 0 {
+			why += " — OFFENDING: " + strings.Join(offenders, ", ")
+		}
+		add("no_package_level_state", len(offenders) == 0, why)
+	}
+
+	// ---- the engine's own state: Engine/Spec.v gives an engine ONE piece of state, the result map of the current call (reset when
+	// a call starts).  Checked: struct Gengine has exactly the fields lock and returnResult — no buffer, counter or flag in which
+	// something of an earlier (failed, rejected) call could survive into the next.
+	{
+		f, err := parser.ParseFile(fset, filepath.Join(root, "engine", "gengine.go"), nil, 0)
+		if err != nil {
+			return err
+		}
+		var fields []string
+		found := false
+		for _, dcl := range f.Decls {
+			gd, ok := dcl.(*ast.GenDecl)
+			if !ok || gd.Tok != token.TYPE {
+				continue
+			}
+			for _, sp := range gd.Specs {
+				ts, ok := sp.(*ast.TypeSpec)
+				if !ok || ts.Name.Name != "Gengine" {
+					continue
+				}
+				if st, ok := ts.Type.(*ast.StructType); ok {
+					found = true
+					for _, fl := range st.Fields.List {
+						if len(fl.Names) == 0 {
+							fields = append(fields, "(embedded "+flat(x, fl.Type)+")")
+						}
+						for _, n := range fl.Names {
+							fields = append(fields, n.Name)
+						}
+					}
+				}
+			}
+		}
+		sort.Strings(fields)
+		okE := found && strings.Join(fields, ",") == "lock,returnResult"
+		why := "struct Gengine has exactly the fields lock and returnResult: the result map is the only state an engine carries from call to call"
+		if !okE {
+			why += " — FOUND: " + strings.Join(fields, ",")
+		}
+		add("engine_state_is_the_result_map", okE, why)
+	}
+
 	sort.Slice(facts, func(i, j int) bool { return facts[i].name < facts[j].name })
 	w := os.Stdout
 	fmt.Fprintln(w, "(* GENERATED by harness/cmd/xlate (T4) from internal/base/*.go — do not edit. *)")
